@@ -38,6 +38,10 @@ BUILT = {
          "Exhaustive TLC model check of all interleavings of the relay's input reader, output reader and handshake worker around standby -> handshaking -> transferring -> standby for chunk arrival patterns before / inside / straddling / after the ACT and CFG lines, confirm and refuse: nothing duplicated, reordered, lost or delivered to the wrong side, chunks parked only while handshaking, everything eventually delivered; the designs without the re-check under the lock and with the status stored before the flush violate it (non-vacuity).  Bound to the code by driving a real relay with unique payload bytes around real trigger/ACT/CFG/EXIT lines under seeded random delays at 16 hook points and validating every feed/hook/deliver event against the same actions with every invariant evaluated at every step.",
          "Trusts TLC, the vhook points (add-only, build tag verif) and the harness tokeniser; schedules are perturbed randomly, not enumerated, on the real code; exhaustive only on the model (4-5 chunks per side); malformed ACT/CFG outcomes and the tunnel relay path are not in the model yet.",
          "2/C13", "relay"),
+ "C14": ("TLA+ specs RelayCfg.tla (handshake rewrites composed with the servers' rule, exhaustive) and RelayObs.tla; TLC-exported cases replayed through the real relay handshake() and validated against RelayCfgTrace.tla; sequences of real transfers through 1-2 real relays validated against RelayObs.tla",
+         "Exhaustive TLC check over all client capability sets x server options x relay situations that the relay never lets binary be negotiated without a tunnel, never raises the protocol above 4 or above the client's, only adds its tmux constraints to the server's configuration and only narrows the action; bound to the code by pushing exported cases through the real handshake() with a real server role and requiring exactly the rewrites the spec computes, and by sequences of four real transfers (success, fault, stop on either side, success) through one chain of 1 or 2 real relays, judging the action/configuration at both ends, the relays' return to standby, pass-through probes in both directions and file equality of successful transfers.",
+         "Trusts TLC and the harness; (tunnel and Windows newline) and (server wants directories, client cannot) are excluded as unreachable / refused combinations; recovery runs are outside tmux and without tunnel; Ctrl-C ending only in the Relay model.",
+         "2/C14", "relay"),
 }
 checks = []
 for p in props:
